@@ -1,7 +1,7 @@
 SPECIFICATION GenSpec
 CONSTANTS SmallIds = {1} Widths = {1} MaxTok = 1 MaxSlots = 9
   Texts <- CTextsF HRs <- CHRsAll
-CONSTRAINT Bound
+CONSTRAINT BoundF
 VIEW Skel
 ACTION_CONSTRAINT Emit
 CHECK_DEADLOCK FALSE
